@@ -74,7 +74,7 @@ mut("buffer-get-no-rear-signal", BF, "            cmb_assert_debug(bp->level <= 
 mut("buffer-put-reports-rem-claim", BF, "            *amntp -= grab;\n            rem_claim -= grab;\n            cmb_logger_info(stdout,\n                            \"Pushed in", "            rem_claim -= grab;\n            cmb_logger_info(stdout,\n                            \"Pushed in", ["C11"])
 mut("buffer-get-partial-not-reported", BF, "            *amntp += grab;\n            rem_claim -= grab;", "            rem_claim -= grab;", ["C11"])
 mut("oq-loses-end-when-empty", OQ, "            if (oqp->queue_head == NULL) {\n                oqp->queue_end = NULL;\n            }", "", ["C12", "C10"])
-mut("oq-lifo", OQ, "            if (oqp->queue_head == NULL) {\n                oqp->queue_head = tag;\n            }\n            else {\n                oqp->queue_end->next = tag;\n            }\n            oqp->queue_end = tag;", "            tag->next = oqp->queue_head;\n            oqp->queue_head = tag;\n            if (oqp->queue_end == NULL) oqp->queue_end = tag;", ["C12"])
+mut("oq-lifo", OQ, "                oqp->queue_end->next = tag;\n            }\n\n            oqp->queue_end = tag;", "                tag->next = oqp->queue_head;\n                oqp->queue_head = tag;\n            }\n", ["C12"])
 mut("pq-lifo-on-equal-priority", PQ, "    return (a->key < b->key);", "    return (a->key > b->key);", ["C12"])
 mut("pq-position-counts-itself", PQ, "        if (tag == target) {\n            continue;\n        }\n", "", ["C12"])
 mut("pq-get-no-signal", PQ, "            cmb_logger_info(stdout, \"Success, got %p\", *objectloc);\n            cmb_resourceguard_signal(&(pqp->rear_guard));", "            cmb_logger_info(stdout, \"Success, got %p\", *objectloc);", ["C08"])
